@@ -6,5 +6,4 @@ CONSTANTS
 SPECIFICATION Spec
 INVARIANT Inv_C14
 INVARIANT Inv_C15_Top
-PROPERTY Termination
 CHECK_DEADLOCK FALSE
